@@ -15,6 +15,10 @@ let act_op id = function
   | "rst" -> DHeadersFail (id, KReset)
   | "badqpack" -> DHeadersFail (id, KBadQpack)
   | "unexpected" -> DHeadersFail (id, KUnexpected)
+  | "toobig" -> DHeadersFail (id, KTooBig)
+  | "truncfin" -> DHeadersFail (id, KTruncFin)
+  | "truncrst" -> DHeadersFail (id, KTruncReset)
+  | "unknown" -> DHeadersFail (id, KUnknown)
   | "malformed" -> DHeadersFail (id, KMalformed)
   | "finish" -> DFinish id
   | "rstafter" -> DPeerReset id
@@ -23,7 +27,13 @@ let act_op id = function
   | "dropsend" -> DDropHalf (id, true)
   | "droprecv" -> DDropHalf (id, false)
   | a -> failwith ("bad action " ^ a)
-let parse_tok tok : dop list =
+let rec parse_tok tok : bop list =
+  if tok = "XU" then [BLost] else
+  match tok.[0] with
+  | 'b' -> [BBlock]
+  | 'W' -> [BUnblock]
+  | _ -> List.map (fun o -> BOp o) (parse_dop tok)
+and parse_dop tok : dop list =
   match tok.[0] with
   | 'A' -> [DArrive (num tok 1)]
   | 'P' -> if tok = "P" then [DPoll] else failwith "bad op"
@@ -41,7 +51,7 @@ let show_out = function
   | ELost id -> Some ("?" ^ string_of_n id)
   | ENone -> Some "none"
   | EPending -> Some "pend"
-  | EErr c -> Some ("err:" ^ string_of_n c ^ "L/close:" ^ string_of_n c)
+  | EErr c -> if c = N0 then Some "err:-R/close:-" else Some ("err:" ^ string_of_n c ^ "L/close:" ^ string_of_n c)
   | _ -> None
 let code_of s = if s = "-" then None else Some (n_of_string s)
 let parse_out tok =
@@ -50,7 +60,7 @@ let parse_out tok =
     (* err:<code><variant letter>/close:<code> *)
     let j = ref 4 in
     while !j < String.length tok && tok.[!j] >= '0' && tok.[!j] <= '9' do incr j done;
-    EErr (n_of_string (String.sub tok 4 (!j - 4)))
+    EErr (if !j = 4 then N0 else n_of_string (String.sub tok 4 (!j - 4)))
   else match tok.[0] with
   | 'w' -> EWire (num tok 1)
   | '+' -> EShown (num tok 1)
@@ -66,15 +76,15 @@ let handle ws =
   match ws with
   | ["drain"; ops] ->
       let ops = parse_ops ops in
-      let w = ref world0 in
+      let w = ref bworld0 in
       let trace = ref [] in
       let groups = List.map (fun o ->
-        let dead = s_dead (w_srv !w) in
-        let (outs, w') = dstep !w o in
+        let dead = s_dead (w_srv (bw_w !w)) in
+        let (outs, w') = bstep !w o in
         w := w'; trace := !trace @ outs;
         if dead then "." else
         match o with
-        | DPoll -> String.concat "," (List.filter_map (function DO e -> show_out e | DI _ -> None) outs)
+        | BOp DPoll -> String.concat "," (List.filter_map (function DO e -> show_out e | _ -> None) outs)
         | _ -> if outs = [] then "skip" else ".") ops in
       let gs = String.concat " " groups in
       "ok " ^ gs ^ " | " ^ verdict !trace ^ " " ^ gs
@@ -83,7 +93,7 @@ let handle ws =
       if List.length ops <> List.length groups then "drain-bad@shape | drain-bad@shape" else begin
         let t = List.concat (List.map2 (fun o gr ->
           if gr = "skip" then []
-          else DI o :: (if gr = "." then [] else List.map (fun x -> DO (parse_out x)) (String.split_on_char ',' gr))) ops groups) in
+          else (match o with BOp d -> DI d | BBlock -> DW true | BUnblock -> DW false | BLost -> DX) :: (if gr = "." then [] else List.map (fun x -> DO (parse_out x)) (String.split_on_char ',' gr))) ops groups) in
         let v = verdict t in v ^ " | " ^ v end
   | _ -> "driver-error unknown-case"
 let () =
